@@ -334,3 +334,104 @@ Proof.
   intros H. destruct (fl_is_nan a) eqn:A; [rewrite fl_cmp_nan in H by auto; discriminate|].
   destruct (fl_is_nan b) eqn:B; [rewrite fl_cmp_nan in H by auto; discriminate|]. auto.
 Qed.
+
+(* ---- constants and small helpers ---- *)
+Lemma Fin_of_parts c : (exists me, fl_parts c = Some me) -> Fin c.
+Proof.
+  unfold fl_parts, Fin. intros [me H]. destruct (of_bits c); try discriminate; reflexivity.
+Qed.
+
+Lemma RV_of_parts c m e : fl_parts c = Some (m, e) -> RV c = F2R (Float radix2 m e).
+Proof.
+  intros H. destruct (fl_parts_fin c) as (m' & e' & Hp & Hv & _ & _).
+  - apply Fin_of_parts. eauto.
+  - rewrite H in Hp. injection Hp as <- <-. exact Hv.
+Qed.
+
+Lemma const_zero : Fin f_zero /\ RV f_zero = 0%R.
+Proof.
+  split; [apply Fin_of_parts; eexists; reflexivity|].
+  rewrite (RV_of_parts f_zero 0 0 eq_refl). unfold F2R. cbn [Fnum]. lra.
+Qed.
+Lemma const_one : Fin f_one /\ RV f_one = 1%R.
+Proof.
+  split; [apply Fin_of_parts; eexists; reflexivity|].
+  rewrite (RV_of_parts f_one 8388608 (-23) eq_refl). unfold F2R. cbn. lra.
+Qed.
+Lemma Fin_not_nan z : Fin z -> fl_is_nan z = false.
+Proof. unfold Fin. rewrite fl_is_nan_spec. apply fin_not_nan. Qed.
+
+(* a non-NaN strictly between the infinities is finite *)
+Lemma XR_fin z : fl_is_nan z = false -> (- bpow radix2 128 < XR z < bpow radix2 128)%R -> Fin z /\ XR z = RV z.
+Proof.
+  unfold XR, RV, Fin. rewrite fl_is_nan_spec. intros N H.
+  destruct (of_bits z) as [s|s|s pl e|s m e e0]; try discriminate; try (split; reflexivity).
+  exfalso. cbn [xr] in H. destruct s; lra.
+Qed.
+
+Lemma one_lt_max : (1 < bpow radix2 128)%R.
+Proof. change 1%R with (bpow radix2 0). apply bpow_lt. lia. Qed.
+
+Lemma fmt_0 : fmt32 0.
+Proof. apply generic_format_0. Qed.
+Lemma fmt_half : fmt32 (/ 2).
+Proof. change (/ 2)%R with (bpow radix2 (-1)). apply fmt_pow2. lia. Qed.
+Lemma fmt_pow2Z e : 0 <= e -> fmt32 (IZR (2 ^ e)).
+Proof. intros H. rewrite <- (bpow2_nonneg e H). apply fmt_pow2. lia. Qed.
+
+Lemma abs_le_of_between x (b : Z) : (0 <= x <= IZR b)%R -> (Rabs x <= IZR b)%R.
+Proof. intros [H0 H1]. rewrite Rabs_pos_eq; assumption. Qed.
+
+
+(* ---- canonical bit patterns: equality of results from equality of value and sign ---- *)
+Definition Canon (z : Z) : Prop := b32_canon (of_bits z) = z.
+
+Lemma canon_canon (r : binary32) : Canon (b32_canon r).
+Proof.
+  unfold Canon. destruct (is_nan 24 128 r) eqn:N.
+  - destruct r; try discriminate. reflexivity.
+  - now rewrite of_bits_canon.
+Qed.
+
+Lemma canon_fl_add a b : Canon (fl_add a b).  Proof. apply canon_canon. Qed.
+Lemma canon_fl_sub a b : Canon (fl_sub a b).  Proof. apply canon_canon. Qed.
+Lemma canon_fl_mul a b : Canon (fl_mul a b).  Proof. apply canon_canon. Qed.
+Lemma canon_fl_div a b : Canon (fl_div a b).  Proof. apply canon_canon. Qed.
+Lemma canon_fl_sqrt a : Canon (fl_sqrt a).    Proof. apply canon_canon. Qed.
+Lemma canon_fl_of_int z : Canon (fl_of_int z). Proof. apply canon_canon. Qed.
+
+Lemma bits_eq a b : Canon a -> Canon b -> Fin a -> Fin b -> RV a = RV b -> Sgn a = Sgn b -> a = b.
+Proof.
+  unfold Canon, Fin, RV, Sgn. intros Ca Cb Fa Fb Hv Hs. rewrite <- Ca, <- Cb. f_equal.
+  now apply B2R_Bsign_inj.
+Qed.
+
+(* the order [fle] of the instance, on all bit patterns *)
+Lemma fl_le_iff a b :
+  match fl_cmp a b with Some Lt | Some Eq => true | _ => false end = true <->
+  fl_is_nan a = false /\ fl_is_nan b = false /\ (XR a <= XR b)%R.
+Proof.
+  split.
+  - intros H. destruct (fl_cmp a b) as [c|] eqn:E; [|discriminate].
+    destruct (fl_cmp_some a b c E) as [Na Nb]. split; [exact Na|]. split; [exact Nb|].
+    rewrite (fl_cmp_xr a b Na Nb) in E. injection E as <-.
+    destruct (Rcompare_spec (XR a) (XR b)); try discriminate; lra.
+  - intros (Na & Nb & H). rewrite (fl_cmp_xr a b Na Nb).
+    destruct (Rcompare_spec (XR a) (XR b)); try reflexivity; lra.
+Qed.
+
+Lemma fl_lt_iff a b :
+  match fl_cmp a b with Some Lt => true | _ => false end = true <->
+  fl_is_nan a = false /\ fl_is_nan b = false /\ (XR a < XR b)%R.
+Proof.
+  split.
+  - intros H. destruct (fl_cmp a b) as [c|] eqn:E; [|discriminate].
+    destruct (fl_cmp_some a b c E) as [Na Nb]. split; [exact Na|]. split; [exact Nb|].
+    rewrite (fl_cmp_xr a b Na Nb) in E. injection E as <-.
+    destruct (Rcompare_spec (XR a) (XR b)); try discriminate; lra.
+  - intros (Na & Nb & H). rewrite (fl_cmp_xr a b Na Nb).
+    destruct (Rcompare_spec (XR a) (XR b)); try reflexivity; lra.
+Qed.
+
+Lemma XR_of_Fin z : Fin z -> XR z = RV z.
+Proof. intros F. unfold XR, RV. now apply xr_fin. Qed.
